@@ -1,6 +1,6 @@
 (* C10 - Dutch auctions settle completely and sell at the posted, falling price.
    Property theorems only; each is closed by [exact] of a lemma proved in Proofs/DutchProofs*.v. *)
-From Comdex Require Import Lib.Base Lib.DecArith Model.DutchV2 Proofs.DutchProofsPrice Proofs.DutchProofsBid
+From Comdex Require Import Lib.Base Lib.DecArith Lib.DecFacts Model.DutchV2 Proofs.DutchProofsPrice Proofs.DutchProofsBid
   Proofs.DutchProofsClose Proofs.DutchProofsConv.
 
 (* ------------------------------------------------------------------------------------------ *)
@@ -356,6 +356,64 @@ Theorem c10_v1_close_complete_lend : forall cf ao a s who bid wd s' r,
   v_led s' LEND_D = v_led s LEND_D - w_topup r /\ (0 < w_topup r -> w_topup r <= v_led s LEND_D).
 Proof. exact v1_close_complete_lend. Qed.
 Print Assumptions c10_v1_close_complete_lend.
+
+(* Custody over the whole life of one generation-1 auction, by induction over any history: beyond the live
+   auction's remaining collateral the auction account holds what it held at the start minus the seized lot
+   minus the bonus paid out; beyond what a live vault auction has collected, its debt balance is unchanged
+   (vault: held until the close, then burned / sent to the collector; lend: passed on to the pool per bid) *)
+Theorem c10_v1_custody : forall cf coll ao pen fees now pin pout a0 s ops,
+  (v_lend cf = true -> 0 <= v_bonus cf) -> (v_lend cf = false -> v_bonus cf = 0) ->
+  0 <= coll -> 0 <= ao -> 0 <= pen -> 0 <= fees -> Forall v1op_ok ops ->
+  v1_activate cf coll ao pen fees now pin pout = Ok a0 ->
+  let f := v1_run cf ao (mkV1L s (Some a0) 0 0 0 0) ops in
+  v_led (g_s f) AUC_C - live_o f = (v_led s AUC_C - coll) - g_bonus f /\
+  v_led (g_s f) AUC_D - live_i cf f = v_led s AUC_D.
+Proof. exact v1_custody. Qed.
+Print Assumptions c10_v1_custody.
+
+(* "no unaccounted remainder stays in auction custody" is FALSE for generation-1 LEND auctions (known finding
+   C10-F4): x/liquidation moves the lot PLUS the whole advertised bonus into the auction account; the bonus is
+   paid per bid as trunc(slice x bonus); the bonus share of collateral that is not sold (target reached early,
+   the rest goes back to the borrower) and the truncation remainders are never paid out or returned.
+   Witness = harness TestC10V1Lend case 5 (seed 1) on the real keepers: lot 213393065, bonus 10 %, 234732372
+   moved in; one bid fills the target with 142262043 of the lot (+ 14226204 bonus), 71131022 go back to the
+   borrower, 7113103 stay in the module account with no auction left. *)
+Theorem c10_v1_lend_custody_refuted :
+  exists s' r, v1_place_bid l_cf 0 l_au (mkV1S l_led None) 0 213393065 false = Ok (s', None, r) /\
+    w_paid r = 211707829 /\ w_slice r = 142262043 /\ w_recv r = 156488247 /\
+    v_led s' OWN_C = 71131022 /\ v_led s' AUC_C = 7113103 /\
+    kf_C10_4 true 234732372 213393065 (w_recv r - w_slice r) = true /\
+    holds_C10_v1_custody (v_led s' AUC_C) (v_led s' AUC_D) = false.
+Proof. exact lend_bonus_stranded. Qed.
+Print Assumptions c10_v1_lend_custody_refuted.
+
+(* outside that class the custody clause holds at every point of every history: [funded] is what was moved
+   into the (otherwise empty) auction account for this auction - for vault auctions exactly the lot.  (Bank
+   balances cannot be overdrawn, hence the residual is never negative: taken as a hypothesis here.) *)
+Theorem c10_v1_custody_partial : forall cf coll ao pen fees now pin pout a0 s ops,
+  (v_lend cf = true -> 0 <= v_bonus cf) -> (v_lend cf = false -> v_bonus cf = 0) ->
+  0 <= coll -> 0 <= ao -> 0 <= pen -> 0 <= fees -> Forall v1op_ok ops ->
+  v1_activate cf coll ao pen fees now pin pout = Ok a0 ->
+  (v_lend cf = false -> v_led s AUC_C = coll) -> v_led s AUC_D = 0 ->
+  let f := v1_run cf ao (mkV1L s (Some a0) 0 0 0 0) ops in
+  kf_C10_4 (v_lend cf) (v_led s AUC_C) coll (g_bonus f) = false ->
+  0 <= v_led (g_s f) AUC_C - live_o f ->
+  holds_C10_v1_custody (v_led (g_s f) AUC_C - live_o f) (v_led (g_s f) AUC_D - live_i cf f) = true.
+Proof.
+  intros cf coll ao pen fees now pin pout a0 s ops Hb Hb0 Hc Ha Hp Hf Hops Ea Hv Hd f Hkf Hnn.
+  destruct (v1_custody cf coll ao pen fees now pin pout a0 s ops Hb Hb0 Hc Ha Hp Hf Hops Ea) as (H1 & H2).
+  fold f in H1, H2. unfold holds_C10_v1_custody, kf_C10_4 in *.
+  assert (Hcase : v_lend cf = true \/ v_lend cf = false) by (destruct (v_lend cf); auto).
+  destruct Hcase as [Hl|Hl].
+  - rewrite Hl in Hkf. cbn [andb] in Hkf. apply Z.ltb_ge in Hkf.
+    apply andb_true_iff. split; apply Z.eqb_eq; lia.
+  - specialize (Hv Hl).
+    assert (g_bonus f = 0).
+    { pose proof (v1_totals cf coll ao pen fees now pin pout a0 s ops Hb Hb0 Hc Ha Hp Hf Ea) as (_ & _ & B0 & B1 & _).
+      fold f in B0, B1. rewrite (Hb0 Hl) in B1. pose proof P18_pos. nia. }
+    apply andb_true_iff. split; apply Z.eqb_eq; lia.
+Qed.
+Print Assumptions c10_v1_custody_partial.
 
 (* non-vacuity: a vault auction (1000000 collateral at 1.0, debt 600000 + 12 % penalty, start price 1.2,
    end factor 0.6, 300 s) takes a partial bid, a tick and a bid that fills the target *)
